@@ -311,3 +311,48 @@ def to_tla(v):
             return "[" + ", ".join("%s |-> %s" % (k, to_tla(x)) for k, x in v.items()) + "]"
         return "(" + " @@ ".join("%s :> %s" % (to_tla(k), to_tla(x)) for k, x in v.items()) + ")"
     raise TypeError("cannot convert %r to TLA+" % (v,))
+
+
+# ------------------------------------------------------------------ case checking
+
+def run_cases(spec, cases, shards=8, timeout=1800, extra_env=None):
+    """Evaluate a Check_* module over a list of JSON cases, sharded over several TLC processes.
+
+    The module reads IOEnv.CASE_FILE (a JSON array), steps through it and prints
+      <<"FAIL", k, "clause">>   for every failing clause of case k (1-based within the shard),
+      <<"INFO", k, "name", value>>  for measured facts,
+      <<"DONE", n>>             after the last case.
+    Returns (fails: {global case index: [clauses]}, infos: {index: {name: value}}, results).
+    A shard that does not print DONE is a machinery failure.
+    """
+    import json
+    from concurrent.futures import ThreadPoolExecutor
+    n = len(cases)
+    if n == 0:
+        return {}, {}, []
+    shards = max(1, min(shards, n))
+    parts = [list(range(i, n, shards)) for i in range(shards)]
+
+    def one(part):
+        wd = scratch()
+        cf = os.path.join(wd, "cases.json")
+        with open(cf, "w") as f:
+            json.dump([cases[i] for i in part], f)
+        env = {"CASE_FILE": cf}
+        if extra_env:
+            env.update(extra_env)
+        res = run(spec, "INIT Init\nNEXT Next\n", workers=1, timeout=timeout, env=env, workdir=wd)
+        done = res.prints("DONE")
+        if not res.clean() or not done or done[-1][1] != len(part):
+            raise TLCError("case run of %s did not complete:\n%s" % (spec, res.out[-5000:]))
+        return part, res
+
+    fails, infos, results = {}, {}, []
+    with ThreadPoolExecutor(max_workers=shards) as ex:
+        for part, res in ex.map(one, parts):
+            results.append(res)
+            for p in res.prints("FAIL"):
+                fails.setdefault(part[p[1] - 1], []).append(p[2])
+            for p in res.prints("INFO"):
+                infos.setdefault(part[p[1] - 1], {})[p[2]] = p[3]
+    return fails, infos, results
